@@ -82,6 +82,9 @@ def config_violations():
         ("cfg.missing_schema_path_tilde", {"set": {"schema_path": "~/schema.graphql"}}, "InvalidConfiguration", ["~/schema.graphql"]),
         ("cfg.target_path_not_dir", {"set": {"target_package_path": "pyproject.toml"}}, "InvalidConfiguration", ["pyproject.toml"]),
         ("cfg.unknown_include_comments", {"set": {"include_comments": "sometimes"}}, "InvalidConfiguration", ["sometimes"]),
+        # a TOML integer is not one of the documented strategies (and not the deprecated boolean either)
+        ("cfg.include_comments_int1", {"set": {"include_comments": 1}}, "InvalidConfiguration", ["1"]),
+        ("cfg.include_comments_int0", {"set": {"include_comments": 0}}, "InvalidConfiguration", ["0"]),
         ("cfg.scalar_without_type", {"set": {"scalars": {"DT": {"parse": "x.y"}}}}, "MissingConfiguration", ["type"]),
         ("cfg.header_env_unset", {"del": ["schema_path"], "set": {"remote_schema_url": "http://x.test/", "remote_schema_headers": {"Authorization": "$VF_NOT_SET_VAR"}}}, "InvalidConfiguration", ["VF_NOT_SET_VAR"]),
         ("cfg.header_env_empty", {"del": ["schema_path"], "set": {"remote_schema_url": "http://x.test/", "remote_schema_headers": {"Authorization": "$VF_EMPTY_VAR"}}}, "InvalidConfiguration", ["VF_EMPTY_VAR"]),
